@@ -370,12 +370,61 @@ def _work_mdib(acc, h):
                       case={'kind': 'mdib', 'history': small})
 
 
+# ------------------------------------------------------------------ (c) consumer MDIB: reports after lost reports
+# A report that arrives after an earlier one was lost may be rejected in the middle (e.g. its create part names a handle
+# the consumer still has): whatever was applied before the rejection must be indexed.
+LOSSY_HISTORIES = [
+    ['create-metric', 'delete(NEW)', 'update-cond-signaled+create-metric'],
+    ['create-metric', 'delete(NEW)', 'update-alert-source+create-metric'],
+    ['create-metric', 'delete(NEW)', 'create-metric', 'update-cond-signaled'],
+    ['update-cond-signaled', 'create-channel+metric', 'delete(ch1)', 'update-alert-source'],
+    ['patient-new(A)', 'update-context-descr', 'patient-new(B)', 'delete(PAT)'],
+]
+
+
+def _work_lossy(acc, h):
+    from mcx.checks import c06
+    import itertools
+    cap = c06.Capture(h)
+    n = len(cap.captured)
+    # every subsequence (messages dropped, order kept) and every subsequence with one message duplicated at the end
+    seqs = []
+    for k in range(1, n + 1):
+        for combo in itertools.combinations(range(n), k):
+            seqs.append(list(combo))
+            if k < n:
+                seqs.append(list(combo) + [combo[0]])
+    for seq in seqs:
+        acc.trace()
+        acc.evals()
+        acc.transition(len(seq))
+        c06.restore_consumer(cap.m, cap.saved)
+        bad = None
+        for i in seq:
+            cap.deliver(i)
+            scan = canon.mdib_scan(cap.m)
+            if scan:
+                bad = (i, scan)
+                break
+        acc.outcome('lossy-delivery-' + ('ok' if bad is None else 'inconsistent'))
+        if acc.state(h64(('lossy', tuple(h), tuple(seq)))):
+            acc.nontrivial(h64(('lossy', tuple(h), tuple(seq))))
+        if bad is not None:
+            names = [f'{cap.captured[j][3]}@v{cap.captured[j][2]}' for j in seq]
+            acc.violation(f'consumer-after-lost-report/{bad[1][0].split("[")[0]}/{">".join(h)}/{",".join(names)}',
+                          {'history': h, 'delivered': names, 'problems': bad[1][:3]},
+                          case={'kind': 'lossy', 'history': h, 'sequence': seq})
+            break
+    cap.w.close()
+
+
 def run(ctx):
     ctx.rule = ('(a) BFS over op histories on 5 real tables (DescriptorsLookup, StatesLookup, MultiStatesLookup, a generic '
                 '3-index table, the subscription-table declaration) with 2-3 stub objects whose attribute domains collide; ops: '
                 'add (3 variants), remove (3 variants), attribute write + update_object, clear, bulk add, update_objects, '
                 'duplicate-key add (must raise and change nothing); state = (attribute values, membership); '
-                '(b) provider+consumer MDIB histories over the events that touch indexed attributes; '
+                '(b) provider+consumer MDIB histories over the events that touch indexed attributes; (c) consumer MDIB after every '
+                'subsequence (lost reports, one duplicate) of the reports of histories whose later reports are then rejected half-way; '
                 'distinct_nontrivial = distinct canonical table states + distinct MDIB snapshots')
     if ctx.quick:
         jobs = [('descriptors', 2, 5), ('states', 3, 6), ('multistates', 2, 6), ('generic', 2, 6), ('subscriptions', 3, 5)]
@@ -387,6 +436,10 @@ def run(ctx):
     hjobs = hist.sequences(names, 2) if ctx.quick else hist.sequences(names, 2) + hist.sequences(names[10:], 3)
     ctx.note('mdib_histories', len(hjobs))
     ctx.pmap(_work_mdib, ctx.rotate(hjobs))
+    ctx.pmap(_work_lossy, ctx.rotate(LOSSY_HISTORIES[:3] if ctx.quick else LOSSY_HISTORIES), chunksize=1)
+    ctx.note('lossy_histories', 3 if ctx.quick else len(LOSSY_HISTORIES))
+    from mcx.checks import c11_sched
+    c11_sched.run(ctx)
     ctx.assumptions.append('an attribute write on a stored object is always followed by update_object (the documented usage); '
                            'updates that would create a duplicate unique key are outside the alphabet')
     ctx.assumptions.append('MDIB level: tests/mdib_tns.xml, loop-back provider + consumer, subscription tables scanned too')
@@ -404,6 +457,23 @@ def replay(ctx, case):
             if problems:
                 ctx.violation(f'table/{case["table"]}/{_fmt(case["history"])}', problems[:3])
                 break
+        return out
+    if case['kind'] == 'table-race':
+        from mcx.checks import c11_sched
+        return c11_sched.replay(ctx, case)
+    if case['kind'] == 'lossy':
+        from mcx.checks import c06
+        cap = c06.Capture(case['history'])
+        c06.restore_consumer(cap.m, cap.saved)
+        out = []
+        for i in case['sequence']:
+            cap.deliver(i)
+            scan = canon.mdib_scan(cap.m)
+            out.append([i, scan[:2]])
+            if scan:
+                ctx.violation('consumer-after-lost-report/' + scan[0].split('[')[0], scan[:3])
+                break
+        cap.w.close()
         return out
     res = run_hist(case['history'])
     if res is not None:
